@@ -31,7 +31,7 @@ func (config BridgeConfig) Validate(ac address.Codec) error {
 		return errors.Wrapf(sdkerrors.ErrInvalidRequest, "batch submitter must be set")
 	}
 
-	if config.FinalizationPeriod == time.Duration(0) {
+	if config.FinalizationPeriod <= time.Duration(0) {
 		return errors.Wrapf(sdkerrors.ErrInvalidRequest, "finalization period must be greater than 0")
 	}
 
@@ -65,7 +65,7 @@ func (config BridgeConfig) ValidateWithNoAddrValidation() error {
 		return errors.Wrapf(sdkerrors.ErrInvalidRequest, "batch submitter must be set")
 	}
 
-	if config.FinalizationPeriod == time.Duration(0) {
+	if config.FinalizationPeriod <= time.Duration(0) {
 		return errors.Wrapf(sdkerrors.ErrInvalidRequest, "finalization period must be greater than 0")
 	}
 
